@@ -19,7 +19,7 @@ ASSUMPTIONS = [
 ]
 RULE = ("sessions of 1-6 requests x {no authenticator, registry (u1:p1, 'ü':'pä ss'), custom authenticator accepting SNI credentials} x {HTTP/1.1 (one request per connection), "
         "HTTP/2 (streams of one connection)} x SNI credentials {none, accepted, rejected}; Proxy-Authorization: absent, both valid pairs, wrong password, wrong user, "
-        "valid+trailing byte, lower-case scheme, 'Basic' without space, two spaces, malformed base64, Bearer, bytes >= 0x80, empty; requests: CONNECT ip:port, CONNECT "
+        "valid+trailing byte, lower-case scheme, 'Basic' without space, two spaces, malformed base64, Bearer, bytes >= 0x80, empty (header values never start or end with a blank: an HTTP/1.1 parser strips those); requests: CONNECT ip:port, CONNECT "
         "name:port, _check, _udp2 (+ one datagram), _icmp, GET/POST absolute URI; non-trivial = authenticator configured; distinct = distinct session")
 
 
@@ -33,7 +33,7 @@ HEADERS = [
     ("wrong-pass", b"Basic " + b64(b"u1:p2")), ("wrong-user", b"Basic " + b64(b"u2:p1")),
     ("trailing", VALID[0] + b"x"), ("lower-scheme", b"basic " + b64(b"u1:p1")), ("no-space", b"Basic" + b64(b"u1:p1")),
     ("two-spaces", b"Basic  " + b64(b"u1:p1")), ("bad-b64", b"Basic !!!!"), ("bearer", b"Bearer " + b64(b"u1:p1")),
-    ("high-bytes", b"Basic \xff\xfe" + b64(b"u1:p1")), ("empty", b""), ("only-scheme", b"Basic "),
+    ("high-bytes", b"Basic \xff\xfe" + b64(b"u1:p1")), ("empty", b""), ("scheme-and-dot", b"Basic ."),
     ("user-only", b"Basic " + b64(b"u1")), ("swapped", b"Basic " + b64(b"p1:u1")),
 ]
 
@@ -65,13 +65,19 @@ def gen_cases(rng, ctx):
     thorough = ctx["tier"] == "thorough" or ctx.get("widened")
     cases = []
 
-    def session(cfg, reqs, kind):
-        toks = [cfg]
+    def session(cfg, reqs, kind, front=0):
+        # front: 0 = the door after the TLS handshake (in-memory transport); 1 = the real listener (Core::listen) over TLS;
+        #        3 = the real listener over QUIC + HTTP/3 (the model is told HTTP/2: same request shapes)
+        if front == 3:
+            cfg = [cfg[0], 1] + cfg[2:]
+        toks = []
         for (tname, k, target, payload, egress), (hname, h) in reqs:
             toks += [[k, 0], list(target), hdr_tok(h), list(payload)]
-        l = line("c01_session", toks)
-        cases.append(Case(l, l, kind=kind, nontrivial=cfg[0] != 0,
-                          meta={"cfg": cfg, "reqs": [(t[0], t[4], h[0], None if h[1] is None else list(h[1])) for t, h in reqs]}))
+        li = line("c01_session", [cfg + [front]] + toks)
+        lm = line("c01_session", [cfg] + toks)
+        cases.append(Case(li, lm, kind=kind + ("" if front == 0 else "-listener" if front == 1 else "-quic"), nontrivial=cfg[0] != 0,
+                          meta={"cfg": cfg, "front": front,
+                                "reqs": [(t[0], t[4], h[0], None if h[1] is None else list(h[1])) for t, h in reqs]}))
 
     # corpus: every header variant on a CONNECT, both protocols, registry
     for http2 in (0, 1):
@@ -80,6 +86,13 @@ def gen_cases(rng, ctx):
         # one accepted request between refused ones
         session([1, http2, 0, 1], [(TARGETS[0], HEADERS[0]), (TARGETS[0], HEADERS[1]), (TARGETS[0], HEADERS[0]), (TARGETS[3], HEADERS[3]), (TARGETS[5], HEADERS[10])],
                 "corpus:accepted-then-refused-h%d" % (2 if http2 else 1))
+    # the same corpus through the endpoint's real listener: TCP + TLS (both protocols) and QUIC + HTTP/3
+    for front, http2 in ((1, 0), (1, 1), (3, 1)):
+        name = "h3" if front == 3 else "h%d" % (2 if http2 else 1)
+        session([1, http2, 0, 1], [(TARGETS[0], h) for h in HEADERS], "corpus:all-headers-" + name, front)
+        session([1, http2, 0, 1], [(t, HEADERS[0]) for t in TARGETS] + [(t, HEADERS[3]) for t in TARGETS], "corpus:all-targets-unauthenticated-" + name, front)
+        session([1, http2, 0, 1], [(TARGETS[0], HEADERS[0]), (TARGETS[0], HEADERS[1]), (TARGETS[0], HEADERS[0]), (TARGETS[3], HEADERS[3]), (TARGETS[5], HEADERS[10])],
+                "corpus:accepted-then-refused-" + name, front)
     n = 260 if thorough else 70
     for i in range(n):
         cfg = [rng.choice([1, 1, 2, 2, 0]), rng.below(2), rng.choice([0, 0, 1, 2]), 1]
@@ -88,13 +101,17 @@ def gen_cases(rng, ctx):
             t = rng.choice(TARGETS)
             h = rng.choice(HEADERS) if rng.chance(2, 3) else rng.choice(HEADERS[:5])
             reqs.append((t, h))
-        session(cfg, reqs, "session:auth%d-h%d-sni%d" % (cfg[0], 2 if cfg[1] else 1, cfg[2]))
+        front = [0, 1, 3][i % 3]
+        session(cfg, reqs, "session:auth%d-%s-sni%d" % (cfg[0], "h3" if front == 3 else "h%d" % (2 if cfg[1] else 1), cfg[2]), front)
     return cases
 
 
 def judge(case, impl, model, spec, ctx):
     if impl == "999":
         return [("violation", "the session harness panicked")]
+    if impl == "996":
+        ctx.setdefault("skipped_env", []).append(case.kind)
+        return []
     cfg = case.meta["cfg"]
     answers = [untok(t) for t in impl.split()]
     manswers = [untok(t) for t in model.split()] if model else None
@@ -102,7 +119,8 @@ def judge(case, impl, model, spec, ctx):
     auth_cfg, http2, sni = cfg[0], cfg[1], cfg[2]
     dropped = auth_cfg != 0 and ((sni == 2) or (sni == 1 and auth_cfg == 1))
     sni_ok = auth_cfg == 2 and sni == 1
-    proto = "HTTP/2" if http2 else "HTTP/1.1"
+    front = case.meta.get("front", 0)
+    proto = "HTTP/3 over the real QUIC listener" if front == 3 else ("HTTP/2" if http2 else "HTTP/1.1") + (" over the real TLS listener" if front == 1 else "")
     for n, ((tname, egress, hname, hbytes), a) in enumerate(zip(case.meta["reqs"], answers)):
         if a == [996]:
             continue
@@ -115,9 +133,7 @@ def judge(case, impl, model, spec, ctx):
                 out.append(("violation", "%s: served (status %d, egress tcp=%d udp=%d) on a connection whose SNI credentials the authenticator rejects" % (what, status, tcp, udp)))
             continue
         if auth_cfg == 0:
-            allowed = hname in ("absent", "valid") or (hbytes is not None and bytes(hbytes).startswith(b"Basic ") and all(32 <= c < 127 for c in hbytes))
-            if not allowed:
-                continue      # no credentials configured: the property does not speak about unreadable headers
+            continue          # no credentials configured: the property's premise does not hold (only the model comparison below applies)
         else:
             allowed = hname == "valid" or (hname == "absent" and sni_ok)
         if not allowed:
